@@ -41,9 +41,108 @@ def run(repo: Repo, rep, tier: str):
     fn = inline.flatten(repo, proj, repo.own_method(proj, "connect"))
     rep.func("rv.project.Project.connect")
     connect_rules(repo, rep, "C07", proj, fn)
+    optional_index_tests(repo, rep, "C07", proj, fn)
     operator_rules(repo, rep, "C07")
     rep.count("files_in_scope", repo.consult_all())
     census_rule(repo, rep, "C07")
+
+
+def _optional_index_method(repo: Repo, name: str) -> Optional[str]:
+    """The link table T when Module.<name>(x) is "the position of x in self.T, or None when it is not there"
+    (`try: return self.T.index(x) / except ValueError: return None`, or `self.T.index(x) if x in self.T else None`)."""
+    try:
+        mod = repo.cls("Module", module="rv.modules.module")
+    except Exception:
+        return None
+    r = repo.lookup(mod, name)
+    if r is None or r[1] != "method":
+        return None
+    fn = r[2]
+    try:
+        from .. import inline
+        fn = inline.normalize(repo, r[0], fn)
+    except Exception:
+        pass
+    body = [st for st in fn.body if not (isinstance(st, ast.Expr) and isinstance(st.value, ast.Constant))]
+    params = [a.arg for a in fn.args.args[1:]]
+    if len(params) != 1:
+        return None
+    # try: R = self.T.index(x) / except ValueError: R = None / return R        (a helper read through)
+    if len(body) == 2 and isinstance(body[0], ast.Try) and isinstance(body[1], ast.Return) and isinstance(body[1].value, ast.Name) \
+            and len(body[0].body) == 1 and isinstance(body[0].body[0], ast.Assign) and len(body[0].handlers) == 1 \
+            and len(body[0].handlers[0].body) == 1 and isinstance(body[0].handlers[0].body[0], ast.Assign) and not body[0].orelse and not body[0].finalbody:
+        rv_ = body[1].value.id
+        a1, a2 = body[0].body[0], body[0].handlers[0].body[0]
+        if norm(a1.targets[0]) == rv_ and norm(a2.targets[0]) == rv_:
+            t_ = body[0]
+            body = [ast.Try(body=[ast.Return(value=a1.value)], handlers=[ast.ExceptHandler(type=t_.handlers[0].type, name=None, body=[ast.Return(value=a2.value)])],
+                            orelse=[], finalbody=[])]
+
+    def index_call(e) -> Optional[str]:
+        if isinstance(e, ast.Call) and isinstance(e.func, ast.Attribute) and e.func.attr == "index" and len(e.args) == 1 and norm(e.args[0]) == params[0] \
+                and isinstance(e.func.value, ast.Attribute) and norm(e.func.value.value) == "self" and e.func.value.attr in TABLES:
+            return e.func.value.attr
+        return None
+
+    def is_none(e) -> bool:
+        return e is None or (isinstance(e, ast.Constant) and e.value is None)
+    if len(body) == 1 and isinstance(body[0], ast.Try) and len(body[0].body) == 1 and isinstance(body[0].body[0], ast.Return) \
+            and len(body[0].handlers) == 1 and norm(body[0].handlers[0].type) == "ValueError" if body and isinstance(body[0], ast.Try) and body[0].handlers \
+            and body[0].handlers[0].type is not None else False:
+        t = index_call(body[0].body[0].value)
+        h = body[0].handlers[0].body
+        if t and len(h) == 1 and isinstance(h[0], ast.Return) and is_none(h[0].value) and not body[0].orelse and not body[0].finalbody:
+            return t
+    if len(body) == 1 and isinstance(body[0], ast.Return) and isinstance(body[0].value, ast.IfExp):
+        e = body[0].value
+        t = index_call(e.body)
+        if t and is_none(e.orelse) and norm(e.test) == f"{params[0]} in self.{t}":
+            return t
+    return None
+
+
+def optional_index_tests(repo: Repo, rep, P: str, proj, fn: ast.FunctionDef):
+    """R8: a value that is "position in a link table, or None" may be 0, so it must be tested with `is None` / `is not None`;
+    a truthiness test reads a link in slot 0 as no link (the pair is then linked a second time / not unlinked)."""
+    rel = proj.file.rel
+    construct = f"{rel}:Project.connect"
+    opt: Dict[str, Tuple[str, str]] = {}
+    for n in ast.walk(fn):
+        if isinstance(n, ast.Assign) and len(n.targets) == 1 and isinstance(n.targets[0], ast.Name) and isinstance(n.value, ast.Call) \
+                and isinstance(n.value.func, ast.Attribute) and len(n.value.args) == 1 and not n.value.keywords:
+            t = _optional_index_method(repo, n.value.func.attr)
+            if t is not None:
+                opt[n.targets[0].id] = (t, norm(n.value))
+    # names bound more than once to different things are not followed
+    for nm in list(opt):
+        defs = [n for n in ast.walk(fn) if isinstance(n, ast.Name) and n.id == nm and isinstance(n.ctx, ast.Store)]
+        if len(defs) != 1:
+            del opt[nm]
+    if not opt:
+        return
+
+    def truth_positions(e: ast.expr):
+        if isinstance(e, ast.Name):
+            yield e
+        elif isinstance(e, ast.UnaryOp) and isinstance(e.op, ast.Not):
+            yield from truth_positions(e.operand)
+        elif isinstance(e, ast.BoolOp):
+            for v in e.values:
+                yield from truth_positions(v)
+    n_tests = 0
+    for n in ast.walk(fn):
+        test = n.test if isinstance(n, (ast.If, ast.While, ast.IfExp, ast.Assert)) else None
+        if test is None:
+            continue
+        for nm in truth_positions(test):
+            if nm.id in opt:
+                n_tests += 1
+                t, src = opt[nm.id]
+                rep.violation(f"{P}.R8", construct, norm(test),
+                              f"`{nm.id}` is {src}: the position of the link in {t}, or None; its truth value is tested, so a link in position 0 "
+                              f"is read as no link (witness: the first link of a module, connected twice / disconnected)", f"{rel}:{n.lineno}")
+    if n_tests == 0:
+        rep.ok(f"{P}.R8", construct, ", ".join(sorted(opt)), "optional link positions are tested with `is None` only")
 
 
 def ownership_refusal(repo: Repo, rep, P: str):
